@@ -36,6 +36,8 @@ def run_impl(case):
 
 
 def model_case(case):
+    if any(h.get("late") for h in case.get("handlers") or []):
+        return None        # registration while the loop runs is not an action of the machine model: such cases are judged by the oracle on the implementation only
     return {k: v for k, v in case.items() if not k.startswith("_")}
 
 
@@ -115,13 +117,24 @@ class X:
         self.hdata = {h["hid"]: h.get("data") for h in case.get("handlers") or []}
         self.cls_handlers = {}
         for h in case.get("handlers") or []:
+            if h.get("late"): continue            # registered while the loop runs (reg_handler): see handlers_at
             self.cls_handlers.setdefault(h["cls"], []).append(h["hid"])
+        self.late = {h["hid"]: h["cls"] for h in case.get("handlers") or [] if h.get("late")}
         self.names = {s["name"]: s["id"] for s in case.get("screens") or []}
         self.specs = {s["id"]: s for s in case.get("screens") or []}
 
     def events(self):
         for i, (ev, ctx) in enumerate(self.x):
             yield i, ev, ctx
+
+    def handlers_at(self, cls, i):
+        """the handlers registered for the class when observation i is made: those registered before run() and those whose registration returned before i"""
+        out = list(self.cls_handlers.get(cls, []))
+        for j, (ev, ctx) in enumerate(self.x[:i]):
+            if ev[0] == "api<" and ev[1] == "reg_handler":
+                hid = next(e[2] for e, c in reversed(self.x[:j]) if e[0] == "api" and e[1] == "reg_handler")
+                if self.late.get(hid) == cls: out.append(hid)
+        return out
 
     def force_quit_index(self):
         for i, ev, ctx in self.events():
